@@ -32,20 +32,50 @@ Definition ap_dom (p : ap) : bool :=
 Definition ap_expected (ps : list ap) : list (Z * Z) :=
   flat_map (fun p => match p with APText _ t => [dfxp_p_expected t] | APBlank _ => [] end) ps.
 
-(* the language a <div> stands for: its own xml:lang, else the document's, else the default *)
-Definition lang_of (default : str) (tt : option str) (own : option str) : str :=
-  match own with Some l => l | None => match tt with Some l => l | None => default end end.
+(* a document: its <div>s and its <p>s in document order. A <div> is given by the xml:lang attributes on the way
+   from it outward through the enclosing <div>s (own first); a <p> by the same list for its nearest <div>
+   (None: the paragraph is in no <div> and denotes nothing).  The language of a paragraph is the nearest xml:lang
+   on that way, else the document's, else the default.  Several divisions may stand for one language. *)
+Fixpoint nearest_lang (default : str) (tt : option str) (ch : list (option str)) : str :=
+  match ch with
+  | Some l :: _ => l
+  | None :: t => nearest_lang default tt t
+  | [] => match tt with Some l => l | None => default end
+  end.
+
+Fixpoint languages_in_order (seen ls : list str) : list str :=
+  match ls with
+  | [] => []
+  | l :: t => if existsb (str_eqb l) seen then languages_in_order seen t
+              else l :: languages_in_order (seen ++ [l]) t
+  end.
+
+Definition chain_eqb (a b : list (option str)) : bool :=
+  (length a =? length b)%nat &&
+  forallb (fun p => match fst p, snd p with
+                    | Some x, Some y => str_eqb x y | None, None => true | _, _ => false end) (combine a b).
+
+Definition doc_dom (divs : list (list (option str))) (ps : list (option (list (option str)) * ap)) : bool :=
+  forallb (fun cp => ap_dom (snd cp)
+                     && match fst cp with Some ch => existsb (chain_eqb ch) divs | None => true end) ps.
+
+(* per language, in order of the first division of the language: the cues of its paragraphs with text, in
+   document order *)
+Definition doc_expected_with (f : dfxp_p -> Z * Z) (default : str) (tt : option str)
+           (divs : list (list (option str))) (ps : list (option (list (option str)) * ap))
+  : list (str * list (Z * Z)) :=
+  map (fun l => (l, flat_map (fun cp => match fst cp, snd cp with
+                                         | Some ch, APText _ t =>
+                                             if str_eqb (nearest_lang default tt ch) l then [f t] else []
+                                         | _, _ => []
+                                         end) ps))
+      (languages_in_order [] (map (nearest_lang default tt) divs)).
+Definition doc_expected := doc_expected_with dfxp_p_expected.
+(* begin+dur read as the exact sum floored once: the other admissible reading *)
+Definition doc_expected_alt := doc_expected_with dfxp_p_expected_alt.
 
 Fixpoint distinct (ks : list str) : bool :=
   match ks with [] => true | k :: t => negb (existsb (str_eqb k) t) && distinct t end.
-
-Definition tree_dom (default : str) (tt : option str) (divs : list (option str * list ap)) : bool :=
-  distinct (map (fun dv => lang_of default tt (fst dv)) divs)
-  && forallb (fun dv => forallb ap_dom (snd dv)) divs.
-
-Definition tree_expected (default : str) (tt : option str) (divs : list (option str * list ap))
-  : list (str * list (Z * Z)) :=
-  map (fun dv => (lang_of default tt (fst dv), ap_expected (snd dv))) divs.
 
 (* a document none of whose languages has a caption is refused *)
 Definition set_result (d : list (str * list (Z * Z))) : result (list (str * list (Z * Z))) :=
